@@ -23,7 +23,7 @@ func TestMain(m *testing.M) {
 			"Oracle: for each URR incarnation the UR-SEQN values observed at the SMF, in arrival order over Session Report Requests, Modification Responses and the Deletion Response, are exactly 0,1,...,n-1; incarnations and sessions are independent. "+
 			"non-trivial = a URR incarnation with reports in >= 2 different carriers, or a URR re-created after removal with >= 1 report in each incarnation; distinct by history",
 		"the oracle counts what is emitted; whether a report should have been emitted is C12's question",
-		"creating a URR id that already exists is a protocol violation by the SMF and is not generated",
+		"a Create URR for a URR that exists is refused by the data plane: the installed URR, its lifetime and its numbering go on",
 		"model data plane returns one usage report per query/remove/update of an existing URR")
 	vcore.Main(m)
 }
@@ -63,6 +63,7 @@ type stats struct {
 	reports      int
 	outstanding  int // report requests sent and never answered
 	unsendable   int // notifications for which no report request could be sent
+	refusedCreate bool // a Create URR for a URR that exists
 	sendFailed   int // report requests that reached the SMF as a retransmission only (first transmission failed locally)
 }
 
@@ -179,7 +180,7 @@ func gen(t *rapid.T) Case {
 			nr := rapid.IntRange(1, 4).Draw(t, "nrules")
 			for j := 0; j < nr; j++ {
 				id := uint32(rapid.IntRange(1, 3).Draw(t, "urr"))
-				switch rapid.SampledFrom([]string{"query", "query", "update", "removeurr", "createurr", "removepdr", "updatepdr", "createpdr"}).Draw(t, "rule") {
+				switch rapid.SampledFrom([]string{"query", "query", "update", "removeurr", "createurr", "createurr-again", "removepdr", "updatepdr", "createpdr"}).Draw(t, "rule") {
 				case "query":
 					if g.urr[id] && !touched[id] {
 						rules = append(rules, stack.RuleOp{Verb: "query", Kind: "URR", ID: id})
@@ -195,6 +196,12 @@ func gen(t *rapid.T) Case {
 					if g.urr[id] && !touched[id] {
 						rules = append(rules, stack.RuleOp{Verb: "remove", Kind: "URR", ID: id})
 						delete(g.urr, id)
+						touched[id] = true
+					}
+				case "createurr-again":
+					// a Create URR for a URR that exists: refused by the data plane, the installed URR goes on measuring and counting
+					if g.urr[id] && !touched[id] {
+						rules = append(rules, stack.RuleOp{Verb: "create", Kind: "URR", ID: id, Method: uint8(rapid.IntRange(0, 7).Draw(t, "method")), Trig: 0x0102})
 						touched[id] = true
 					}
 				case "createurr":
@@ -455,6 +462,10 @@ func run(c Case) (v *vcore.Violation, stt stats) {
 			// creates start a new incarnation before anything of this message is emitted
 			for _, ru := range ev.Rules {
 				if ru.Kind == "URR" && ru.Verb == "create" {
+					if cur[ikey{ev.Sess, ru.ID}] != nil {
+						stt.refusedCreate = true // the URR exists: the data plane refuses the request, its lifetime goes on
+						continue
+					}
 					endInc(ikey{ev.Sess, ru.ID})
 					cur[ikey{ev.Sess, ru.ID}] = &inc{carriers: map[string]bool{}}
 				}
@@ -512,6 +523,9 @@ func account(c Case, s stats) {
 	}
 	if s.unsendable > 0 && s.reports > 0 {
 		vcore.E.Class("reports_in_responses_after_notifications_that_could_not_be_sent")
+	}
+	if s.refusedCreate {
+		vcore.E.Class("create_urr_for_a_urr_that_exists")
 	}
 	if s.sendFailed > 0 {
 		vcore.E.Class("report_request_whose_first_transmission_failed")
